@@ -854,7 +854,8 @@ def run(ctx):
     for j in range(ctx.pick(4000, 40000)):
         universal_case(ctx, rng, counters, j)
     i = 0
-    while i < n and time.time() < deadline:
+    floor_cases = 1500  # count-based minimum behind the ctx.require floors; the time cap applies beyond it
+    while i < n and (i < floor_cases or time.time() < deadline):
         one_case(ctx, rng, counters, i)
         i += 1
     for k, v in counters.items():
